@@ -157,6 +157,7 @@ theorem sum_step {s : State} (h : Inv s) (st : Step) : StepSum s (step s st) := 
   | ioComplete x => exact sum_doComplete _ _
   | ioFail x => exact sum_doFail _ _
   | ioPeerClose x => exact sum_doPeerClose _ _
+  | timerClose x => exact sum_doFail _ _
   | ioStep => exact sum_doIoStep _
   | fence => exact sum_doFence _
 
